@@ -5,7 +5,11 @@ import vlib
 
 
 def record_vm(ck, wd, parts, variant='verif', extra_flags=()):
-    exe = vlib.build_harness('rx_vm', variant=variant, extra=['-fno-access-control'] + list(extra_flags))
+    try:      # with read-back of the branch targets the x86 JIT encoded (needs JitCompilerX86 internals); without it if they moved
+        exe = vlib.build_harness('rx_vm', variant=variant, extra=['-fno-access-control', '-DVERIF_JIT_TARGETS'] + list(extra_flags))
+    except vlib.Infra:
+        vlib.log('  rx_vm: JIT branch-target read-back does not build on this tree; continuing without it')
+        exe = vlib.build_harness('rx_vm', variant=variant, extra=['-fno-access-control'] + list(extra_flags))
 
     def go(part):
         outp = os.path.join(wd, 'vm_%s_%s.ndjson' % (variant, part))
